@@ -366,6 +366,16 @@ extern "C" void h_mkTimes3_two_sums() {
     for (int k = 0; k < 7; k++) { PTRef a[3] = {PTRef{p[k][0]}, PTRef{p[k][1]}, PTRef{p[k][2]}}; times_tuple<3>(a); }
     finish<W_REJ | W_REJ2SUMS | W_RET | W_DISTRIB>(7);
 }
+// -1 as first or second of three factors (the two-argument shortcut "multiplication by -1 is negation" must not apply): 18 triples
+extern "C" void h_mkTimes3_q_minus1() {
+    static const uint32_t s3[3] = {N_2, N_X, N_XP1};
+    build_universe();
+    for (int i = 0; i < 3; i++) for (int j = 0; j < 3; j++) {
+        PTRef a[3] = {PTRef{N_MONE}, PTRef{s3[i]}, PTRef{s3[j]}}; times_tuple<3>(a);
+        PTRef b[3] = {PTRef{s3[i]}, PTRef{N_MONE}, PTRef{s3[j]}}; times_tuple<3>(b);
+    }
+    finish<W_REJ | W_RET | W_RET_NEW | W_DISTRIB | W_FOLDED>(18);
+}
 // thorough tier: all pairs, all triples. The rows (first / second argument) are split in five groups -- {0,1,-1} {x,y,2} {-3,2x,-y}
 // {x+1,y+1,x+y} {3-argument sum, 2-y} -- because CBMC's object numbering (--object-bits 12) admits only about 50 calls per entry.
 #define SPLIT5(name, call, ma, mb, mc, md, me) \
